@@ -1,7 +1,100 @@
-//! Specs of the fault / crash / concurrency / tools checks.
+//! Specs of the fault / crash / cancellation / stored-byte / concurrency / liveness / tools checks.
 
-use crate::batch::CheckSpec;
+use crate::batch::{CheckSpec, ProfileSpec};
+use crate::exec::RunOutcome;
+use crate::plan::*;
 
-pub fn spec_for2(_property: &str) -> Option<CheckSpec> {
-    None
+fn p(name: &'static str, weight: u32) -> ProfileSpec {
+    ProfileSpec { name, weight }
+}
+
+fn data_ops(plan: &Plan) -> usize {
+    plan.sessions.iter().flat_map(|s| s.clients.iter().flatten()).filter(|o| matches!(o.kind, OpKind::Write { .. } | OpKind::Delete { .. })).count()
+}
+
+fn nt_crash(plan: &Plan, out: &RunOutcome) -> bool {
+    // the crash fired, and it found in-flight or un-synced state (a torn tail, a rejected blob or lost bytes)
+    out.fired.get("kill") >= 1 && data_ops(plan) >= 3 && (out.probes.get("blob_quarantined_after_crash") + out.probes.get("power_loss_lost_bytes") + out.probes.get("fault_fired_inside_operation") >= 1)
+}
+
+fn nt_fault(plan: &Plan, out: &RunOutcome) -> bool {
+    let fired: u64 = ["write_err", "short_write", "sync_err", "create_err", "open_err"].iter().map(|k| out.fired.get(k)).sum();
+    fired >= 1 && data_ops(plan) >= 3 && out.probes.get("fault_fired_inside_operation") >= 1
+}
+
+fn nt_cancel(plan: &Plan, out: &RunOutcome) -> bool {
+    out.fired.get("cancel") >= 1 && data_ops(plan) >= 3
+}
+
+fn nt_bitflip(plan: &Plan, out: &RunOutcome) -> bool {
+    let flips: u64 = ["bitflip_data", "bitflip_meta", "bitflip_rec_header", "bitflip_blob_header"].iter().map(|k| out.fired.get(k)).sum();
+    data_ops(plan) >= 2 && (flips >= 1 || plan.profile.contains("clean"))
+}
+
+const A_COMMON: [&str; 3] = [
+    "interleaving granularity is the await point plus the buggify yield sites; two blocking closures never overlap inside their bodies",
+    "sampling, not enumeration: a clean batch is evidence, not proof; sweeps are exhaustive only over the fault sites of the sampled histories (capped per history in the quick tier)",
+    "directory operations during init (read_dir, rename, create_dir, remove_file) are real tokio::fs calls, not faulted",
+];
+
+pub fn spec_for2(property: &str) -> Option<CheckSpec> {
+    let mut a = A_COMMON.to_vec();
+    Some(match property {
+        "C05" => CheckSpec {
+            property: "C05".into(),
+            level: "fault_enumeration",
+            profiles: vec![p("bitflip", 8), p("bitflip-clean", 2)],
+            quick_runs: 6_000,
+            thorough_runs: 300_000,
+            quick_budget_s: 75,
+            thorough_budget_s: 600,
+            nontrivial_rule: "sequential histories whose value lengths are biased to every threshold (0,1, 4096-header-meta +-60, 81920-header +-40, 200 KiB) with metas of 0..2 entries in both I/O modes: every acknowledged write must have stored exactly the written bytes (tap) and every read path (read, read_with, read_all + load) must return them. Then one burst of <= 32 bits is flipped in a stored record (classes data / meta / record header / blob header; position and pattern seeded) either under the open storage (index in memory or on disk) or between sessions (index kept or removed, data validation on or off). Oracle: a record whose stored bytes were altered is never returned with altered bytes: its reads fail, or its blob is quarantined at start-up; untouched blobs are never quarantined. CRC32C detects every burst <= 32 bits, so the oracle is exact. Non-trivial = a flip was applied (or clean round-trip profile) with >= 2 data operations; distinct = distinct I/O event signature",
+            nontrivial: nt_bitflip,
+            assumptions: a,
+            expected_probes: vec!["bitflip_data", "bitflip_meta", "bitflip_rec_header"],
+        },
+        "C06" => {
+            a.push("crash model: kill = the process dies at a chosen mutating I/O event which is applied fully, partially (k bytes) or not at all; afterwards the disk is dead and every task, lock and pending simulated job is discarded. Power loss = kill, then each file is rebuilt from its content at the last successful sync plus a prefix of the writes issued since (optionally with the last <= 512 bytes zeroed or garbage); directory entries of created files and renames are durable when performed");
+            CheckSpec {
+                property: "C06".into(),
+                level: "fault_enumeration",
+                profiles: vec![p("crash-kill", 4), p("crash-power", 3), p("crash-sweep-kill", 2), p("crash-sweep-power", 1)],
+                quick_runs: 4_000,
+                thorough_runs: 100_000,
+                quick_budget_s: 90,
+                thorough_budget_s: 600,
+                nontrivial_rule: "three-session runs: a seeded history (rotation, deletes into closed blobs, dumps in flight) is cut by one crash, recovery, writes after recovery, clean restart, more writes, restart with or without index files; validate_data and ignore_corrupted vary per session. Random runs draw the crash event and the partial-write length; sweep runs re-run the same history once per (mutating I/O event x kept-bytes in {0,1,header,header+meta,len-1,all}) (capped at 160 sites per history in the quick tier). Oracle: init Ok; only blobs with a torn, in-flight or un-synced tail may be quarantined/ignored; every query equals the model over the complete records of attached blobs after recovery and after every later step and restart; kill model: acknowledged records of a rejected blob are served by a storage opened on recovery_blob's output. Non-trivial = the crash fired and met in-flight, torn or un-synced state; distinct = distinct I/O event signature",
+                nontrivial: nt_crash,
+                assumptions: a,
+                expected_probes: vec!["session_killed", "blob_quarantined_after_crash", "recovery_tool_run", "power_loss_lost_bytes", "torn_tail"],
+            }
+        }
+        "C11" => CheckSpec {
+            property: "C11".into(),
+            level: "fault_enumeration",
+            profiles: vec![p("iofault", 6), p("iofault-sweep", 3)],
+            quick_runs: 4_000,
+            thorough_runs: 100_000,
+            quick_budget_s: 90,
+            thorough_budget_s: 600,
+            nontrivial_rule: "sequential histories with rotation, dumps and deletes into closed blobs; random runs arm 1..2 faults (n-th create/open/write/sync on blob or index files, ENOSPC or EIO, short writes keeping 1, half or len-1 bytes); sweep runs re-run one history once per (mutating I/O event x {ENOSPC, EIO, short 1, short half, short len-1}) (capped at 160 sites per history in the quick tier). Oracle: an acknowledged write always has a complete record; after each step, after 60 simulated seconds and after a clean restart every query equals the model (records of failed operations may or may not be visible, never other data); an operation may fail only if a fault fired while it ran; the rotation probe succeeds after the faults; only blobs with a failed or partial write may be quarantined at restart; no task panics. Non-trivial = a fault fired inside an operation of a history with >= 3 data operations; distinct = distinct I/O event signature",
+            nontrivial: nt_fault,
+            assumptions: a,
+            expected_probes: vec!["write_err", "short_write", "sync_err", "create_err", "probe_rotated"],
+        },
+        "C14" => CheckSpec {
+            property: "C14".into(),
+            level: "fault_enumeration",
+            profiles: vec![p("cancel", 6), p("cancel-sweep", 3)],
+            quick_runs: 4_000,
+            thorough_runs: 100_000,
+            quick_budget_s: 90,
+            thorough_budget_s: 600,
+            nontrivial_rule: "sequential histories in which operation futures (write in three size classes, delete into active/closed blobs, reads, try_close/create/restore, fsyncdata, free_excess_resources) are polled k times and dropped, in both I/O modes; sweep runs re-run one history once per (operation x k in 0..13). Detached simulated jobs then run under the scheduler; further operations, a restart with or without index files, more operations. Oracle: the cancelled operation is all-or-nothing (its complete records may or may not be visible until the restart, never a partial record), every other acknowledged record reads back, later operations succeed, no blob is quarantined at the restart, model equality afterwards. Non-trivial = a future was dropped before completion in a history with >= 3 data operations; distinct = distinct I/O event signature",
+            nontrivial: nt_cancel,
+            assumptions: a,
+            expected_probes: vec!["cancel", "detached_job_outlived_future", "optional_record_from_failed_or_cancelled_op"],
+        },
+        _ => return crate::checks3::spec_for3(property),
+    })
 }
